@@ -172,10 +172,15 @@ def call_specfun(ev, name, node, st):
             bv = sev.spec_val(body, s2)
         finally:
             del values.SCOPE[len(values.SCOPE) - len(vs):]
-        f = z3.Function(fresh_name("spec_" + name), *([z3.IntSort()] * len(vs) + [leaf_sort(rs)]))
-        app = f(*vs)
         from .values import leaf_term
-        values.DEFS.append((f.name(), z3.ForAll(vs, app == leaf_term(rs, bv), patterns=[app])))
+        if vs:
+            f = z3.Function(fresh_name("spec_" + name), *([z3.IntSort()] * len(vs) + [leaf_sort(rs)]))
+            app = f(*vs)
+            values.DEFS.append((f.name(), z3.ForAll(vs, app == leaf_term(rs, bv), patterns=[app])))
+        else:
+            c0 = z3.Const(fresh_name("spec_" + name), leaf_sort(rs))
+            f = lambda c0=c0: c0
+            values.DEFS.append((c0.decl().name(), c0 == leaf_term(rs, bv)))
         _specfun_cache[key] = f
     f = _specfun_cache[key]
     args = [as_num(ev.ev(a, st)).t for a in node.args]
@@ -222,7 +227,7 @@ def call_pkg(ev, q, node, st, argvals=None):
     else:
         params, vals = bind_values(ev, fdef, callee_mod, argvals, st)
         nodes = {}
-    c = ctx.registry.get(q)
+    c = ctx.registry.get(ctx.contract.get("use", {}).get(q, q))
     if ev.spec:
         # package functions used inside specifications are pure: inline them
         c = None if (c is None or not c.get("spec_as_contract")) else c
@@ -642,6 +647,16 @@ def lib_mean(ev, args, kw, st, node):
     return Num(core.real_div(s.real(), z3.ToReal(v.n)))
 
 
+def sqrt_seq(ev, n, xfn, st):
+    """elementwise square root: sequence r with r[k] = sqrt(x(k)); the defining property is asserted for every k"""
+    out = Seq.from_fn(n, REAL, lambda k: Num(uf_real("sqrt", xfn(k))))
+    k2 = z3.Int(fresh_name("k"))
+    r = as_num(out.at(k2)).t
+    x = xfn(k2)
+    st.pc.append(z3.ForAll([k2], z3.Implies(z3.And(k2 >= 0, k2 < n, x >= 0), z3.And(r >= 0, r * r == x)), patterns=[r]))
+    return out
+
+
 def sqrt_term(ev, x, st):
     r = uf_real("sqrt", x)
     st.pc.append(z3.Implies(x >= 0, z3.And(r >= 0, r * r == x)))
@@ -652,7 +667,7 @@ def sqrt_term(ev, x, st):
 def lib_sqrt(ev, args, kw, st, node):
     v = args[0]
     if isinstance(v, Seq):
-        return Seq.from_fn(v.n, REAL, lambda k: Num(sqrt_term(ev, as_num(v.at(k)).real(), st)))
+        return sqrt_seq(ev, v.n, lambda k: as_num(v.at(k)).real(), st)
     x = as_num(v).real()
     if node is not None and isinstance(node.func, ast.Attribute) and isinstance(node.func.value, ast.Name) \
             and node.func.value.id == "math":
@@ -667,6 +682,113 @@ def lib_square(ev, args, kw, st, node):
         return Seq.from_fn(v.n, v.esh, lambda k: map_leaves(v.at(k), lambda x: Num(x.t * x.t)))
     x = as_num(v)
     return Num(x.t * x.t)
+
+
+def _row_items(v):
+    if isinstance(v, Tup):
+        return [as_num(i) for i in v.items]
+    return None
+
+
+@lib("numpy.linalg.norm")
+def lib_norm(ev, args, kw, st, node):
+    """Euclidean norm of a row (tuple of coordinates); with axis=1 the norm of every row of an n x k array"""
+    v = args[0]
+    ax = kw.get("axis")
+    if isinstance(v, Tup):
+        sq = None
+        for it in _row_items(v):
+            t = it.real() * it.real()
+            sq = t if sq is None else sq + t
+        return Num(sqrt_term(ev, sq, st))
+    if isinstance(v, Seq) and v.esh.kind == "tup" and ax is not None and z3.is_int_value(as_num(ax).t) and as_num(ax).t.as_long() == 1:
+        def xfn(k):
+            sq = None
+            for it in _row_items(v.at(k)):
+                t = it.real() * it.real()
+                sq = t if sq is None else sq + t
+            return sq
+        return sqrt_seq(ev, v.n, xfn, st)
+    if isinstance(v, Seq) and v.esh.kind in ("int", "real") and ax is None:
+        sqs = Seq.from_fn(v.n, REAL, lambda k: Num(as_num(v.at(k)).real() * as_num(v.at(k)).real()))
+        s_ = lib_sum(ev, [sqs], {}, st, node)
+        return Num(sqrt_term(ev, s_.t, st))
+    raise Unsupported("np.linalg.norm of %r" % (v,))
+
+
+@lib("numpy.dot")
+def lib_dot(ev, args, kw, st, node):
+    a, b = args
+
+    def dot_rows(x, y):
+        xs, ys = _row_items(x), _row_items(y)
+        if xs is None or ys is None or len(xs) != len(ys):
+            raise Unsupported("np.dot operands")
+        t = None
+        for p, q in zip(xs, ys):
+            m = p.real() * q.real()
+            t = m if t is None else t + m
+        return Num(t)
+    if isinstance(a, Tup) and isinstance(b, Tup):
+        return dot_rows(a, b)
+    if isinstance(a, Seq) and a.esh.kind == "tup" and isinstance(b, Tup):
+        return Seq.from_fn(a.n, REAL, lambda k: dot_rows(a.at(k), b))
+    raise Unsupported("np.dot of %r, %r" % (a, b))
+
+
+@lib("numpy.divide")
+def lib_divide(ev, args, kw, st, node):
+    return ev.binop(ast.Div(), args[0], args[1], st, node)
+
+
+@lib("numpy.hypot")
+def lib_hypot(ev, args, kw, st, node):
+    a, b = args
+    if isinstance(a, Seq) and isinstance(b, Seq):
+        ev.need("broadcast: equal lengths", st, a.n == b.n, node)
+        def xfn(k):
+            x, y = as_num(a.at(k)).real(), as_num(b.at(k)).real()
+            return x * x + y * y
+        return sqrt_seq(ev, a.n, xfn, st)
+    x, y = as_num(a).real(), as_num(b).real()
+    return Num(sqrt_term(ev, x * x + y * y, st))
+
+
+@lib("numpy.zeros")
+def lib_zeros(ev, args, kw, st, node):
+    n = as_num(args[0])
+    if not n.is_int:
+        raise Unsupported("np.zeros shape")
+    ev.need("np.zeros of a non-negative length", st, n.t >= 0, node)
+    return Seq(n.t, z3.IntVal(0), [z3.K(z3.IntSort(), z3.RealVal(0))], REAL, "array")
+
+
+@lib("numpy.maximum.reduce")
+def lib_maximum_reduce(ev, args, kw, st, node):
+    v = args[0]
+    if not isinstance(v, Tup) or not all(isinstance(i, Seq) for i in v.items):
+        raise Unsupported("np.maximum.reduce operand")
+    seqs = v.items
+    for s_ in seqs[1:]:
+        ev.need("broadcast: equal lengths", st, s_.n == seqs[0].n, node)
+    def elem(k):
+        r = as_num(seqs[0].at(k)).real()
+        for s_ in seqs[1:]:
+            y = as_num(s_.at(k)).real()
+            r = z3.If(r >= y, r, y)
+        return Num(r)
+    return Seq.from_fn(seqs[0].n, REAL, elem)
+
+
+@lib("numpy.all")
+def lib_all(ev, args, kw, st, node):
+    v = args[0]
+    if isinstance(v, BoolV):
+        return v
+    if isinstance(v, Seq) and v.esh.kind == "bool":
+        k = z3.Int(fresh_name("k"))
+        return BoolV(z3.ForAll([k], z3.Implies(z3.And(k >= 0, k < v.n), v.at(k).t)))
+    raise Unsupported("np.all of %r" % (v,))
 
 
 @lib("math.ceil")
@@ -867,7 +989,11 @@ def sp_opt_val(ev, node, st):
 @spec("sqrt")
 def sp_sqrt(ev, node, st):
     x = as_num(ev.ev(node.args[0], st)).real()
-    return Num(uf_real("sqrt", x))
+    r = uf_real("sqrt", x)
+    from . import values
+    if not any(values.occurs(v, x) for v in values.SCOPE):
+        st.pc.append(z3.Implies(x >= 0, z3.And(r >= 0, r * r == x)))     # defining property of the real square root
+    return Num(r)
 
 
 @spec("real")
